@@ -5,6 +5,7 @@ use ide::handlers::document_symbol::{DocumentSymbol, DocumentSymbolKind};
 
 use super::semcase::{program_of, sem_case, show, workspace_of};
 use crate::fw::*;
+use serde_json::json;
 use crate::gen::sem::{DeclKind, Program, Role};
 use crate::ws::{abs, r2};
 
@@ -80,18 +81,68 @@ impl Property for C18 {
         "C18"
     }
     fn rule(&self) -> String {
-        "SEM programs (declarations nested in foreach / if / let / defset / multiclass, optional parts present or absent, root + headers). Outline per file, in source order: every class, identifier-named def (defs inside a defset as that defset's children), defset and multiclass declared in that file with kind, name and the declaring identifier's range; class children = template arguments in order then one entry per distinct field declared or overridden in the body (range = one of that name's identifiers); def children = its fields. Entries for defs inside multiclass bodies and defs named by a paste expression are not asserted (filtered by name before comparing). Folding: exactly one range per class/def/defset/foreach/if/let/multiclass statement, from its first token to its last non-trivia token, pairwise nested or disjoint. distinct = (seed, n); non-trivial = >=2 nesting constructs and a defset or multiclass".into()
+        "SEM programs (declarations nested in foreach / if / let / defset / multiclass, optional parts present or absent, root + headers). Outline per file, in source order: every class, identifier-named def (defs inside a defset as that defset's children), defset and multiclass declared in that file with kind, name and the declaring identifier's range; class children = template arguments in order then one entry per distinct field declared or overridden in the body (range = one of that name's identifiers); def children = its fields. Entries for defs inside multiclass bodies and defs named by a paste expression are not asserted (filtered by name before comparing). Family unresolved-parent (exhaustive, 128 cases): a def or class with parents P1, P2 (: P0), P3 one of which is replaced by an undeclared class; its children are its own field and the overrides of the fields that reach it through the parents that resolve. Folding: exactly one range per class/def/defset/foreach/if/let/multiclass statement, from its first token to its last non-trivia token, pairwise nested or disjoint. distinct = (seed, n); non-trivial = >=2 nesting constructs and a defset or multiclass".into()
     }
     fn families(&self, ctx: &Ctx) -> Vec<Family> {
-        vec![Family::new("sem-programs", ctx.tier.pick(500, 30000), |_c, rng, emit| {
-            for _ in 0..50 {
-                if !emit(sem_case(rng, false)) {
-                    return;
+        vec![
+            Family::new("sem-programs", ctx.tier.pick(500, 30000), |_c, rng, emit| {
+                for _ in 0..50 {
+                    if !emit(sem_case(rng, false)) {
+                        return;
+                    }
                 }
-            }
-        })]
+            }),
+            // a record one of whose parents cannot be resolved (a typo, a file not included yet): what it
+            // overrides of the fields of its other parents is in its outline all the same
+            Family::new("unresolved-parent", 1, |_c, _r, emit| {
+                for missing in 0..4u64 {
+                    for lets in 0..16u64 {
+                        for kind in 0..2u64 {
+                            if !emit(json!({"kind": "unresolved-parent", "missing": missing, "lets": lets, "record": kind})) {
+                                return;
+                            }
+                        }
+                    }
+                }
+            })
+            .exhaustive(),
+        ]
     }
     fn run_case(&self, _ctx: &Ctx, case: &Case) -> Verdict {
+        if case["kind"] == "unresolved-parent" {
+            let (Some(missing), Some(lets), Some(kind)) = (case["missing"].as_u64(), case["lets"].as_u64(), case["record"].as_u64()) else { return Verdict::Skip("malformed-case") };
+            // parents P1, P2 (which inherits a0 from P0), P3; position `missing` (0..3) is replaced by an undeclared
+            // class, 3 = none. Lets of a1 (P1), a0 and a2 (through P2), a3 (P3), chosen by the bits of `lets`.
+            let mut parents = vec!["P1", "P2", "P3"];
+            if (missing as usize) < 3 {
+                parents[missing as usize] = "Missing";
+            }
+            let fields = [("a1", 0usize), ("a0", 1), ("a2", 1), ("a3", 2)];
+            let mut body = String::from("  int own = 9;\n");
+            let mut want: Vec<String> = vec!["own".into()];
+            for (k, (f, via)) in fields.iter().enumerate() {
+                if lets >> k & 1 == 1 {
+                    body.push_str(&format!("  let {f} = {k};\n"));
+                    if *via != missing as usize {
+                        want.push(f.to_string());
+                    }
+                }
+            }
+            let head = if kind % 2 == 0 { "def r" } else { "class R" };
+            let text = format!("class P0 {{ int a0 = 0; }}\nclass P1 {{ int a1 = 1; }}\nclass P2 : P0 {{ int a2 = 2; }}\nclass P3 {{ int a3 = 3; }}\n{head} : {} {{\n{body}}}\n", parents.join(", "));
+            let ws = crate::ws::Workspace::new(&[("root.td".to_string(), text.clone())], "root.td");
+            let a = ws.analysis();
+            let syms = a.document_symbol(ws.root).unwrap_or_default();
+            let name = if kind % 2 == 0 { "r" } else { "R" };
+            let Some(entry) = syms.iter().find(|s| s.name == name) else {
+                return Verdict::Fail(Failure::plain("C18.outline", format!("no outline entry for {name} in\n{text}")));
+            };
+            let got: Vec<String> = entry.children.iter().map(|c| c.name.to_string()).collect();
+            if got != want {
+                return Verdict::Fail(Failure::new("C18.outline-entry", "C18.outline-entry:unresolved-parent", format!("children of {name}: {got:?}, expected {want:?} (overrides of fields that reach the record through a parent that resolves)\n{text}")));
+            }
+            return Verdict::pass(missing < 3 && lets != 0);
+        }
         let Some(p) = program_of(case) else { return Verdict::Skip("malformed-case") };
         let ws = workspace_of(&p);
         let a = ws.analysis();
